@@ -24,18 +24,26 @@ PID = 'C13'
 SUPPORT = ['StrictPort', 'ILog', 'MiscUtils', 'MetaHelpers', 'MultiClientSelector', 'MutexWrapped']
 
 
-class Hang(Exception):
-    pass
+class Hang(BaseException):
+    """Raised by the watchdog. A BaseException so that no `except Exception` on the way (the library's or the
+    harness's own) can swallow it."""
 
 
 def _alarm(_sig, _frm):
     raise Hang()
 
 
+# The watchdog counts CPU time consumed by THIS process (ITIMER_PROF), not wall-clock time: a build that is merely
+# starved by a loaded machine can never be mistaken for one that does not terminate. (A first version used
+# signal.alarm(10): under heavy load one thorough run reported a hang for a 5 ms build - a false alarm of the
+# harness, corrected here.)
+HANG_CPU_SECONDS = 20
+
+
 def attempt(model, cfg):
     """('OK', files) | ('LIBERR', cls, msg) | ('CRASH', cls, msg) | ('HANG',)"""
-    old = signal.signal(signal.SIGALRM, _alarm)
-    signal.alarm(10)
+    old = signal.signal(signal.SIGPROF, _alarm)
+    signal.setitimer(signal.ITIMER_PROF, HANG_CPU_SECONDS)
     try:
         files = B.build(model, cfg)
         return ('OK', files)
@@ -45,8 +53,8 @@ def attempt(model, cfg):
         kind = 'LIBERR' if B.is_library_error(exc) else 'CRASH'
         return (kind, type(exc).__name__, str(exc))
     finally:
-        signal.alarm(0)
-        signal.signal(signal.SIGALRM, old)
+        signal.setitimer(signal.ITIMER_PROF, 0)
+        signal.signal(signal.SIGPROF, old)
 
 
 def expected_names(model, cfg):
@@ -69,6 +77,8 @@ def reference_validity(model, cfg):
     prov = [p.name for p in facts.provides]
     req = [p.name for p in facts.requires]
     inj = [p.name for p in facts.injected]
+    if str(cfg.get('fac', 'create')).startswith('RAW:'):
+        return ('INVALID', 'origin:not-a-member')
     for side in ('provides', 'requires'):
         for sel in cfg[side]:
             if not isinstance(sel, str) and (len(sel) == 0 or '' in sel):
@@ -302,6 +312,11 @@ def faults(model, cfg, facts):
             c['mc'] = {'port': prov[0], 'claim': 'EnumRet', 'grant': 'Ok', 'release': 'V0'}
             c['provides'] = ['ALL', 'NONE']
             yield 'mc-on-sts-port', m, c
+    # --- facilities origin that is not a member of the enumeration
+    for raw in ('RAW:None', 'RAW:str', 'RAW:value', 'RAW:int', 'RAW:other-enum-create', 'RAW:other-enum-import'):
+        m, c = mod()
+        c['fac'] = raw
+        yield f'origin-invalid:{raw[4:]}', m, c
     # --- file names / suffix
     for name, fname, suffix in (('file-empty', '', 'Shell'), ('suffix-empty', model['file'], ''),
                                 ('file-noext', 'Mod', 'Shell'), ('file-dots', 'a.b/My.Model.dzn', 'X'),
